@@ -76,7 +76,7 @@ def savable : Value α → Bool
   | .str s => strOK s
   | .obj => true
   | .arr xs => decide (xs.length ≤ maxArray) && savableVals xs
-  | .cls xs => savableVals xs
+  | .cls xs => decide (xs.length ≤ maxClass) && savableVals xs
   | .map ps => savablePairs ps && ps.keys.all (fun k => !isReal k) && decide ((ps.keys.filterMap keyTag).Nodup)
 def savableVals : Vals α → Bool
   | .nil => true
